@@ -342,6 +342,19 @@ def install():
 
     def p_getattr(obj, name, *default):
         r = active()
+        if r is not None and not _access_subject(r)[0] and not _in_check(r) and name == "_rpyc_getattr" \
+                and default == (None,) and _top_handler(r) == "_handle_cmp":
+            # `_handle_cmp` asks whether the object's own type defines the hook (then that hook decides)
+            h = [x for x in r.handlers if x["req"] == len(r.reqs) and x["name"] == "_handle_cmp"][-1]
+            if h["args"] and obj is type(h["args"][0]):
+                r.touch("hooklookup", h["args"][0], name)
+                try:
+                    res = real_getattr(obj, name, *default)
+                except BaseException as ex:
+                    r.failed(ex)
+                    raise
+                r.done(res)
+                return res
         if r is None or not _access_subject(r)[0] or _in_check(r):
             return real_getattr(obj, name, *default)
         if default:
